@@ -440,11 +440,11 @@ class Wtp:
         return self.db_path.with_stem(self.db_path.stem + "_backup")
 
     def backup_db(self) -> None:
-        self.backup_db_path.unlink(True)
         self.db_conn.commit()
-        # Write the copy under another name and rename it when it is
-        # complete: an interrupted backup must not be mistaken for a backup
-        # (create_db installs whatever is found at backup_db_path).
+        # Write the copy under another name and move it into place when it
+        # is complete: an interrupted backup must not be mistaken for a
+        # backup (create_db installs whatever is found at backup_db_path),
+        # and an earlier complete backup stays in force until then.
         tmp_path = self.backup_db_path.with_name(
             self.backup_db_path.name + ".incomplete"
         )
@@ -454,7 +454,7 @@ class Wtp:
         with backup_conn:
             self.db_conn.backup(backup_conn)
         backup_conn.close()
-        tmp_path.rename(self.backup_db_path)
+        tmp_path.replace(self.backup_db_path)
 
     def close_db_conn(self) -> None:
         assert self.db_path
